@@ -4,7 +4,8 @@ SUT: SyncProducer.start/stop, PdoMap.start/stop/update (+ PdoVariable writes,
 PdoBase.stop), NmtSlave heartbeat (start_heartbeat/stop_heartbeat, NMT state
 changes through the API and from the bus, object 0x1017 written through
 node.sdo and through the SDO server), NmtMaster.start/stop_node_guarding,
-PeriodicMessageTask.update (both branches) and Network.disconnect.
+PeriodicMessageTask.update (both branches) and Network.disconnect (called, and through the context
+manager protocol of Network: __exit__, a `with network:` block left normally or by an exception).
 
 Rig: one simulated bus with two canopen.Network objects, "M" (master side:
 SYNC producer, RemoteNodes with RPDO maps, node guarding, SDO clients) and "S"
@@ -27,7 +28,11 @@ Clause -> case family
         sync:      enum/sync, history (start(p), start(), stop; int and float periods)
         PDO:       enum/pdo, history: start(p)/start()/period attribute/period learnt from reception,
                    variable writes (byte-aligned and bit fields), data assignment + update(), update(),
-                   11- and 29-bit COB-IDs, maps configured from the OD and by hand
+                   11- and 29-bit COB-IDs, maps configured from the OD and by hand; the other configuration
+                   items of a map are varied too and have no say in any clause: marked valid/enabled or not
+                   (OD: bit 31 of the COB-ID entry; by hand: True / False / never touched, the default; also
+                   assigned while the map is stopped), RTR allowed (bit 30), transmission type, inhibit time /
+                   event timer / SYNC start value.  enum/pdo-not-enabled repeats enum/pdo on such maps.
         heartbeat: enum/hb, history: payload after nmt.state=, send_command, NMT frames from the master
                    API / raw frames (addressed, broadcast, foreign node), period = 0x1017 / 1000
         guarding:  enum/guard, history: remote frame 0x700+id, period
@@ -37,7 +42,8 @@ Clause -> case family
   "no earlier task keeps transmitting after a restart"
         restart-without-stop of every producer in enum/* (all op sequences up to a length) and history
   "disconnecting the network stops the PDO tasks of all its nodes"
-        enum/disconnect (every subset of 4 maps on 2 nodes x order of disconnects), history
+        enum/disconnect (every subset of 4 maps on 2 nodes x order of disconnects x way of disconnecting
+        x which maps are marked enabled), history (way drawn per disconnect)
   "buses whose cyclic tasks can and cannot modify data in place": `mod` is drawn / enumerated everywhere.
 
 Finding F1 (genuine defect of the unchanged tree, kept out of the domain by construction and counted as
@@ -70,8 +76,13 @@ LEVEL = "exploration"
 RULE = ("case = configuration (bus with/without modify_data, 1-2 nodes each as LocalNode on network S and "
         "RemoteNode on network M, 0-2 TPDO/RPDO maps per node with drawn COB-ID/layout/set-up, heartbeat "
         "default) + history of 1..60 calls over SYNC, PDO, heartbeat (API, NMT frames, 0x1017 writes local and "
-        "via SDO), node guarding and Network.disconnect. Exhaustive parts: every op sequence up to a fixed "
-        "length over a small alphabet per producer, every subset of started maps x disconnect order. Oracle: "
+        "via SDO), node guarding and Network.disconnect. Per map also drawn: marked enabled or not (OD COB-ID "
+        "bit 31; by hand True/False/untouched default; reassigned while stopped), RTR bit, transmission type, "
+        "inhibit/event/SYNC-start entries - none of them may influence start, stop, data updates or "
+        "disconnect. A disconnect is the call, Network.__exit__(None, None, None), or a `with network:` block "
+        "left normally or by an exception. Exhaustive parts: every op sequence up to a fixed "
+        "length over a small alphabet per producer (PDO: on enabled and on not-enabled maps), every subset of "
+        "started maps x disconnect order x way of disconnecting x enabled marks. Oracle: "
         "reference model (ref_c17) of the expected live transmissions, compared as a multiset (bus, id, payload, "
         "remote, period) with the recording bus after every call, plus a no-overlap probe at registration "
         "time. sync.cob_id may be changed between calls (the next start() must use it; a task already running "
@@ -89,6 +100,11 @@ ASSUMPTIONS = [
     "start(0) is only issued while stopped and leaves the period attribute undetermined; PdoMap.period is only "
     "assigned while stopped; PdoMap.data is only changed together with update() or a variable write",
     "period comparison uses rel. tolerance 1e-9 (ms -> s conversion may round differently)",
+    "leaving a `with network:` block (normally or by an exception) and Network.__exit__ are disconnects of that "
+    "network; whether the exception of the block propagates is not judged",
+    "reception (period learnt from received frames) is only generated for maps marked enabled whose mark never "
+    "changed; PdoMap.enabled is only assigned while the map is stopped; a map that is not marked enabled can be "
+    "started, updated and stopped like any other (start() is documented without such a condition)",
 ]
 BUDGET = {"quick": 150, "thorough": 330}
 
@@ -154,10 +170,23 @@ def _od_spec(node):
         for m in node.get(direction, []):
             no = m["no"]
             cob = m["cob"] | (0x20000000 if m["cob"] > 0x7FF else 0)
-            spec.append({"kind": "record", "index": com + no - 1, "name": f"{direction}{no} com", "members": [
-                {"sub": 0, "name": "n", "dt": rc.UNSIGNED8, "default": 2},
+            if m.get("en", True) is not True:
+                cob |= 0x80000000            # CiA 301: bit 31 = PDO does not exist / is not valid
+            if m.get("rtr") is False:
+                cob |= 0x40000000            # bit 30 = no RTR allowed on this PDO
+            com_members = [
+                {"sub": 0, "name": "n", "dt": rc.UNSIGNED8, "default": 6 if m.get("extra") else 2},
                 {"sub": 1, "name": "COB-ID", "dt": rc.UNSIGNED32, "default": cob},
-                {"sub": 2, "name": "type", "dt": rc.UNSIGNED8, "default": m.get("tt", 255)}]})
+                {"sub": 2, "name": "type", "dt": rc.UNSIGNED8,
+                 "default": 255 if m.get("tt") is None else m["tt"]}]
+            if m.get("extra"):
+                inhibit, event, sync_start = m["extra"]
+                com_members += [
+                    {"sub": 3, "name": "inhibit time", "dt": rc.UNSIGNED16, "default": inhibit},
+                    {"sub": 5, "name": "event timer", "dt": rc.UNSIGNED16, "default": event},
+                    {"sub": 6, "name": "SYNC start value", "dt": rc.UNSIGNED8, "default": sync_start}]
+            spec.append({"kind": "record", "index": com + no - 1, "name": f"{direction}{no} com",
+                         "members": com_members})
             members = [{"sub": 0, "name": "n", "dt": rc.UNSIGNED8,
                         "default": len(m["entries"]) if m["setup"] == "from_od" else 0}]
             m["_vars"] = []
@@ -173,6 +202,14 @@ def _od_spec(node):
             spec.append({"kind": "array", "index": mp + no - 1, "name": f"{direction}{no} map",
                          "members": members})
     return spec
+
+
+class _LeaveBlock(Exception):
+    """Raised by the harness inside a `with network:` block (route "with-raise")."""
+
+
+# ways to disconnect a network: the call, and leaving the context manager the Network object is
+ROUTES = ("call", "exit", "with", "with-raise")
 
 
 class Rig:
@@ -213,7 +250,15 @@ class Rig:
                             else:
                                 pm.add_variable(idx, 0, e["bits"])
                         pm.cob_id = m["cob"]
-                        pm.enabled = True
+                        # configuration items of a map set up by hand; "default" = never touched
+                        if m.get("en", True) != "default":
+                            pm.enabled = m.get("en", True)
+                        if m.get("rtr") is not None:
+                            pm.rtr_allowed = m["rtr"]
+                        if m.get("tt") is not None:
+                            pm.trans_type = m["tt"]
+                        if m.get("extra"):
+                            pm.inhibit_time, pm.event_timer, pm.sync_start_value = m["extra"]
                         if m.get("sub"):
                             pm.subscribe()
                     self.maps[(side, nid, m["no"])] = pm
@@ -265,7 +310,24 @@ class Rig:
         elif k == "g_stop":
             self.remote[op["node"]].nmt.stop_node_guarding()
         elif k == "disconnect":
-            self.net[op["net"]].disconnect()
+            net = self.net[op["net"]]
+            route = op.get("route", "call")
+            if route == "call":
+                net.disconnect()
+            elif route == "exit":
+                net.__exit__(None, None, None)
+            elif route == "with":
+                with net:
+                    pass
+            elif route == "with-raise":
+                # the block is left by an exception of the caller; whether it propagates is not judged
+                try:
+                    with net:
+                        raise _LeaveBlock()
+                except _LeaveBlock:
+                    pass
+            else:
+                raise KeyError(route)
             # a disconnected network has no notifier any more: it hears nothing
             self.port[op["net"]].network = None
         else:
@@ -291,6 +353,8 @@ class Rig:
             pm.stop()
         elif k == "pdo_period":
             pm.period = op["p"]
+        elif k == "pdo_enabled":
+            pm.enabled = op["v"]
         elif k == "pdo_write":
             pm[op["var"]].raw = op["v"]
         elif k == "pdo_assign":
@@ -491,11 +555,36 @@ def directed_same_value():
                     {"op": "pdo_poke", "data": bytes(3), **a}, {"op": "pdo_update", **a}]}
 
 
-def enum_pdo(max_len):
+def directed_refused_write():
+    """A download to object 0x1017 that the node refuses (length does not match UNSIGNED16) is not a change
+    of the heartbeat time object: the producer stays as it is (running with the old time, or not running)."""
+    nid = 9
+    boot = {"op": "l_state", "node": nid, "state": "PRE-OPERATIONAL"}
+    for mod in (True, False):
+        for hb in (0, 20, 1000):
+            for prefix in ([], [boot], [boot, {"op": "hb_write", "node": nid, "via": "local", "v": 50}],
+                           [{"op": "hb_start", "node": nid, "ms": 70}]):
+                for via in ("local", "remote"):
+                    for data in (b"\x00", b"\x05", b"\x01\x02\x03", b"\x14\x00\x00\x00", b"\x00\x00\x00\x00",
+                                 b"\x00\x00\x00\x00\x00\x00\x00\x00\x00"):
+                        for suffix in ([], [{"op": "l_state", "node": nid, "state": "OPERATIONAL"}]):
+                            yield {"family": "directed/refused-write", "mod": mod, "nodes": [{"id": nid, "hb": hb}],
+                                   "ops": prefix + [{"op": "hb_refused", "node": nid, "via": via, "data": data}]
+                                   + suffix}
+
+
+def enum_pdo(max_len, not_enabled=False, deal=2):
+    """All op sequences up to max_len on two map variants; the longest ones are dealt 1 in `deal` to each
+    variant.  not_enabled: the same on maps that are not marked enabled (from the OD: bit 31 of the COB-ID
+    entry, no RTR, synchronous transmission type; by hand: `enabled` never touched) - start(), stop(), the
+    node-wide stop and every data-update route have to work on them all the same."""
+    family = "enum/pdo-not-enabled" if not_enabled else "enum/pdo"
     for mod in (True, False):
         for variant in (0, 1):
             if variant == 0:
                 m = {"no": 1, "cob": 0x185, "setup": "from_od", "entries": [E(U8), E(U16)]}
+                if not_enabled:
+                    m.update(en=False, rtr=False, tt=1)
                 node = {"id": 5, "hb": 0, "tpdo": [m]}
                 a = {"side": "L", "node": 5, "map": 1}
                 w = [{"op": "pdo_write", "var": 0, "v": 1, **a}, {"op": "pdo_write", "var": 1, "v": 0x1234, **a},
@@ -504,6 +593,8 @@ def enum_pdo(max_len):
             else:
                 m = {"no": 2, "cob": 0x1ABCDE01 if mod else 0x7FF, "setup": "direct",
                      "entries": [E(U8, 3), E(I16), E(I8, 5)]}
+                if not_enabled:
+                    m.update(en="default", sub=True)
                 node = {"id": 0x7F, "hb": 0, "rpdo": [m]}
                 a = {"side": "R", "node": 0x7F, "map": 2}
                 w = [{"op": "pdo_write", "var": 0, "v": 5, **a}, {"op": "pdo_write", "var": 1, "v": -2, **a},
@@ -514,10 +605,12 @@ def enum_pdo(max_len):
                      {"op": "pdo_update", **a}, {"op": "pdo_assign", "data": d1, "rebind": False, **a},
                      {"op": "pdo_assign", "data": d2, "rebind": True, **a},
                      {"op": "pdo_stop_all", "side": a["side"], "node": a["node"], "which": "pdo"}]
+            if not_enabled:
+                alpha.append({"op": "pdo_stop_all", "side": a["side"], "node": a["node"], "which": "dir"})
             for j, seq in enumerate(_sequences(alpha, max_len)):
-                if len(seq) == max_len and max_len > 2 and (j + variant) % 2:
+                if len(seq) == max_len and max_len > 2 and (j + variant) % deal:
                     continue   # the longest sequences are dealt alternately to the two variants
-                yield {"family": "enum/pdo", "mod": mod, "nodes": [node], "ops": seq}
+                yield {"family": family, "mod": mod, "nodes": [node], "ops": seq}
 
 
 def enum_hb(max_len):
@@ -549,13 +642,35 @@ def enum_guard(max_len):
                    "nodes": [{"id": 3, "hb": 0}, {"id": 100, "hb": 0}], "ops": seq}
 
 
-def enum_disconnect():
-    nodes = [{"id": 2, "hb": 500,
-              "tpdo": [{"no": 1, "cob": 0x182, "setup": "from_od", "entries": [E(U16)]}],
-              "rpdo": [{"no": 1, "cob": 0x202, "setup": "direct", "entries": [E(U8), E(U8)]}]},
-             {"id": 3, "hb": 0,
-              "tpdo": [{"no": 4, "cob": 0x483, "setup": "direct", "entries": [E(U32)]}],
-              "rpdo": [{"no": 2, "cob": 0x303, "setup": "from_od", "entries": [E(I32), E(I32)]}]}]
+# which maps of the disconnect rig are marked enabled: as listed in `maps` of enum_disconnect
+#   (node 2 tpdo 1 from_od, node 2 rpdo 1 direct, node 3 tpdo 4 direct, node 3 rpdo 2 from_od)
+EN_VARIANTS = ((True, True, True, True),                 # 0: the rig as it always was
+               (False, "default", "default", False),     # 1: no map is marked enabled
+               (False, True, "default", True),           # 2, 3: mixed
+               (True, False, True, False))
+
+
+def _disconnect_nodes(en):
+    def cfg(m, e):
+        if e is not True:
+            m["en"] = e
+        return m
+    return [{"id": 2, "hb": 500,
+             "tpdo": [cfg({"no": 1, "cob": 0x182, "setup": "from_od", "entries": [E(U16)]}, en[0])],
+             "rpdo": [cfg({"no": 1, "cob": 0x202, "setup": "direct", "entries": [E(U8), E(U8)]}, en[1])]},
+            {"id": 3, "hb": 0,
+             "tpdo": [cfg({"no": 4, "cob": 0x483, "setup": "direct", "entries": [E(U32)]}, en[2])],
+             "rpdo": [cfg({"no": 2, "cob": 0x303, "setup": "from_od", "entries": [E(I32), E(I32)]}, en[3])]}]
+
+
+def _disc(net, route):
+    op = {"op": "disconnect", "net": net}
+    if route != "call":
+        op["route"] = route
+    return op
+
+
+def enum_disconnect(thorough=False):
     maps = [("L", 2, 1), ("R", 2, 1), ("L", 3, 4), ("R", 3, 2)]
     others = [{"op": "sync_start", "net": "M", "p": 0.01}, {"op": "sync_start", "net": "S", "p": 0.02},
               {"op": "l_state", "node": 2, "state": "PRE-OPERATIONAL"},
@@ -564,36 +679,51 @@ def enum_disconnect():
     stops = [{"op": "sync_stop", "net": "M"}, {"op": "sync_stop", "net": "S"}, {"op": "hb_stop", "node": 2},
              {"op": "hb_write", "node": 3, "via": "local", "v": 0}, {"op": "g_stop", "node": 2},
              {"op": "g_stop", "node": 3}]
-    for mod in (True, False):
-        for subset in range(16):
-            for with_others in (False, True):
-                for order in (["M"], ["S"], ["M", "S"], ["S", "M"], ["M", "M"]):
-                    ops = []
-                    for b, (side, nid, no) in enumerate(maps):
-                        if subset >> b & 1:
-                            ops.append({"op": "pdo_start", "side": side, "node": nid, "map": no,
-                                        "p": 0.05 * (b + 1)})
-                    if with_others:
-                        ops += others
-                    ops += [{"op": "disconnect", "net": n} for n in order]
-                    if with_others:
-                        ops += stops
-                    yield {"family": "enum/disconnect", "mod": mod, "nodes": nodes, "ops": ops}
+    # route "call" on the all-enabled rig first: the family as it was before routes / `enabled` were varied
+    for env, route in [(0, r) for r in ROUTES] + [(e, r) for e in (1, 2, 3) for r in ROUTES]:
+        nodes = _disconnect_nodes(EN_VARIANTS[env])
+        for mod in (True, False):
+            for subset in range(16):
+                for with_others in (False, True):
+                    if with_others and env and not thorough:
+                        continue
+                    for order in (["M"], ["S"], ["M", "S"], ["S", "M"], ["M", "M"]):
+                        ops = []
+                        for b, (side, nid, no) in enumerate(maps):
+                            if subset >> b & 1:
+                                ops.append({"op": "pdo_start", "side": side, "node": nid, "map": no,
+                                            "p": 0.05 * (b + 1)})
+                        if with_others:
+                            ops += others
+                        ops += [_disc(n, route) for n in order]
+                        if with_others:
+                            ops += stops
+                        yield {"family": "enum/disconnect", "mod": mod, "nodes": nodes, "ops": ops}
     # "the PDO tasks of ALL its nodes": also the maps of the other direction of each node object
     # (TPDO maps of a RemoteNode, RPDO maps of a LocalNode)
     maps6 = maps + [("r", 2, 1), ("l", 2, 1), ("r", 3, 4), ("l", 3, 2)]
-    for mod in (True, False):
-        for subset in range(1, 256):
-            if bin(subset).count("1") > 3 and subset % 7:
-                continue
-            for order in (["M", "S"], ["S"], ["M"]):
-                ops = []
-                for b, (side, nid, no) in enumerate(maps6):
-                    if subset >> b & 1:
-                        ops.append({"op": "pdo_start", "side": side, "node": nid, "map": no, "p": 0.01 * (b + 1)})
-                ops += [{"op": "disconnect", "net": n} for n in order]
-                yield {"family": "enum/disconnect-both-directions", "mod": mod, "nodes": nodes,
-                       "both_directions": True, "ops": ops}
+    combos = [(0, "call")] + [(e, r) for e in (0, 1, 2, 3) for r in ROUTES if (e, r) != (0, "call")]
+    for pass_no in range(len(combos) if thorough else 2):
+        i = 0
+        for mod in (True, False):
+            for subset in range(1, 256):
+                if bin(subset).count("1") > 3 and subset % 7:
+                    continue
+                i += 1
+                for o, order in enumerate((["M", "S"], ["S"], ["M"])):
+                    # pass 0: the family as it was; quick: one more pass that deals the other combinations of
+                    # (enabled marks, route) round robin (every combination meets every order); thorough: one
+                    # pass per combination
+                    env, route = (combos[pass_no] if thorough or pass_no == 0
+                                  else combos[1 + (i + 5 * o) % (len(combos) - 1)])
+                    ops = []
+                    for b, (side, nid, no) in enumerate(maps6):
+                        if subset >> b & 1:
+                            ops.append({"op": "pdo_start", "side": side, "node": nid, "map": no,
+                                        "p": 0.01 * (b + 1)})
+                    ops += [_disc(n, route) for n in order]
+                    yield {"family": "enum/disconnect-both-directions", "mod": mod,
+                           "nodes": _disconnect_nodes(EN_VARIANTS[env]), "both_directions": True, "ops": ops}
 
 
 def known_defect_cases():
@@ -621,6 +751,10 @@ STATE_NAMES = ["OPERATIONAL", "STOPPED", "PRE-OPERATIONAL", "PRE-OPERATIONAL", "
                "RESET COMMUNICATION", "OPERATIONAL", "SLEEP", "STANDBY"]
 CMDS = [1, 2, 128, 129, 130, 1, 2, 80, 96, 3, 0, 255]
 
+
+EN_DIRECT = (True, True, True, "default", "default", False)
+EN_FROM_OD = (True, True, True, False, False)
+TRANS_TYPES = (None, None, 0, 1, 2, 240, 241, 252, 253, 254, 255)
 
 _CACHE = {}
 _BOOL = st.booleans()
@@ -666,6 +800,19 @@ def config(draw):
                      "entries": draw(st.sampled_from(LAYOUTS))}
                 if m["setup"] == "direct" and draw(st.booleans()):
                     m["sub"] = True
+                # further configuration items of a map: valid/enabled mark, RTR allowed, transmission type,
+                # inhibit time / event timer / SYNC start value.  Keys are only present when not the default.
+                en = pick(draw, EN_DIRECT if m["setup"] == "direct" else EN_FROM_OD)
+                if en is not True:
+                    m["en"] = en
+                rtr = pick(draw, (None, None, True, False))
+                if rtr is not None:
+                    m["rtr"] = rtr
+                tt = pick(draw, TRANS_TYPES)
+                if tt is not None:
+                    m["tt"] = tt
+                if draw(_ints(0, 3)) == 0:
+                    m["extra"] = [draw(_ints(0, 65535)), draw(_ints(0, 65535)), draw(_ints(0, 240))]
                 maps.append(m)
             if maps:
                 node[direction] = maps
@@ -713,6 +860,10 @@ def _pdo_op(draw, model, key):
             kinds += ["start_noarg"] * 3
         if m.running is None:
             kinds += ["start0", "period"]
+            if not m.subscribed:
+                # (maps that take part in reception keep their mark: what `enabled` means for reception is
+                # not stated, and the reception ops are wanted)
+                kinds += ["enabled"]
             if m.period is None:
                 kinds += ["start_noarg"]
             if m.subscribed:
@@ -732,6 +883,8 @@ def _pdo_op(draw, model, key):
         return {"op": "pdo_update", **a}
     if kind == "period":
         return {"op": "pdo_period", "p": draw(period_st), **a}
+    if kind == "enabled":
+        return {"op": "pdo_enabled", "v": draw(_BOOL), **a}
     if kind == "write":
         var = draw(_ints(0, len(m.layout) - 1))
         off, bits, dt = m.layout[var]
@@ -780,7 +933,7 @@ def history(draw, max_ops):
         elif kind == "sync_cob":
             op = {"op": "sync_cob", "net": net, "cob": pick(draw, SYNC_COBS)}
         elif kind == "disconnect":
-            op = {"op": "disconnect", "net": net}
+            op = _disc(net, pick(draw, ROUTES))
         elif kind == "pdo":
             key = pick(draw, (sorted(model.pdo)))
             op = _pdo_op(draw, model, key)
@@ -831,16 +984,30 @@ def history(draw, max_ops):
 def search(ctx):
     thorough = ctx.tier == "thorough"
     ctx.enumerate(known_defect_cases(), None)
-    ctx.enumerate(enum_disconnect(), "every subset of 4 PDO maps on 2 nodes x disconnect order x bus kind")
+    # the small directed families first: they are over in a second, also on a loaded machine
+    ctx.enumerate(directed_same_value(), "reception on a running map, then a write of the value already there")
+    ctx.enumerate(directed_refused_write(), "refused downloads to 0x1017 (wrong length, 6 payloads x local/SDO) in "
+                  "4 producer states x 3 heartbeat times, alone and followed by a state change")
+    ctx.enumerate(enum_disconnect(thorough), "every subset of 4 PDO maps on 2 nodes x disconnect order x bus kind "
+                  "x way of disconnecting (call, __exit__, with block left normally / by an exception) x which "
+                  "maps are marked enabled")
+    n = 4 if thorough else 3
+    ctx.enumerate(enum_pdo(n, not_enabled=True, deal=4),
+                  f"pdo, maps not marked enabled: all op sequences up to length {n - 1} on two map variants, "
+                  f"every 4th of length {n}")
     ctx.enumerate(enum_guard(6 if thorough else 4), f"guarding: all op sequences up to length {6 if thorough else 4}")
+    rounds, per_round = (12, 1000) if thorough else (4, 400)
+    # thorough: one round of random histories before the three big enumerations, so that a loaded machine
+    # that exhausts the budget in them has still seen histories
+    early = 1 if thorough else 0
+    for k in range(early):
+        ctx.hypothesis(history(60), per_round, salt=k)
     ctx.enumerate(enum_sync(6 if thorough else 4), f"sync: all op sequences up to length {6 if thorough else 4}")
     ctx.enumerate(enum_hb(4 if thorough else 3), f"heartbeat: all op sequences up to length {4 if thorough else 3}")
     ctx.enumerate(enum_pdo(5 if thorough else 3), f"pdo: all op sequences up to length {4 if thorough else 2} on two map variants, length "
                   f"{5 if thorough else 3} dealt alternately to the variants")
-    ctx.enumerate(directed_same_value(), "reception on a running map, then a write of the value already there")
     # random histories in rounds, so that an exhausted time budget stops the generation as well
-    rounds, per_round = (12, 1000) if thorough else (4, 400)
-    for k in range(rounds):
+    for k in range(early, rounds):
         if ctx.over_budget():
             break
         ctx.hypothesis(history(60), per_round, salt=k)
